@@ -505,6 +505,18 @@ func genStateCase(r *hx.RNG) (stateCase, []chain.BlockSpec) {
 				items = append(items, fmt.Sprintf("dec:%s:%x", chain.SierraHash(id).Text(16), casm))
 			}
 		}
+		// CASM-hash migration (>= 0.14.1 state diffs): re-hash the class-trie leaf of a class declared in an
+		// EARLIER block; often in a block that declares nothing (migration-only block)
+		for id := uint64(1); id <= 2; id++ {
+			if _, now := sp.DeclareV1[id]; declared[id] && !now && r.Chance(30) {
+				casm := 9100 + uint64(r.Intn(50))
+				if sp.Migrate == nil {
+					sp.Migrate = map[uint64]uint64{}
+				}
+				sp.Migrate[id] = casm
+				items = append(items, fmt.Sprintf("mig:%s:%x", chain.SierraHash(id).Text(16), casm))
+			}
+		}
 		for _, a := range addrs[:3] {
 			if !deployed[a] && r.Chance(50) {
 				deployed[a] = true
@@ -541,6 +553,13 @@ func genStateCase(r *hx.RNG) (stateCase, []chain.BlockSpec) {
 				// becomes empty while the contract stays deployed), later blocks touch it again
 				for k := range cur[a] {
 					m[k] = 0
+				}
+			}
+			if r.Chance(5) {
+				// bulk: more than 100 updates to ONE storage trie in one block (trie2 commits such batches
+				// through its parallel collector), keys spread over 64 bits
+				for i, n := 0, 101+r.Intn(60); i < n; i++ {
+					m[r.U64()|1<<63] = uint64(1 + r.Intn(3))
 				}
 			}
 			for i := 0; i < r.Intn(3)+btoi(len(m) == 0); i++ {
@@ -604,6 +623,15 @@ func specFromItems(sc stateCase, b int) chain.BlockSpec {
 					sp.DeclareV1[id] = u(f[2])
 				}
 			}
+		case "mig":
+			for id := uint64(1); id <= 2; id++ {
+				if chain.SierraHash(id).Text(16) == f[1] {
+					if sp.Migrate == nil {
+						sp.Migrate = map[uint64]uint64{}
+					}
+					sp.Migrate[id] = u(f[2])
+				}
+			}
 		case "dep":
 			sp.Deploy[u(f[1])] = u(f[2])
 		case "rep":
@@ -664,13 +692,19 @@ func shrinkState(or *hx.Oracle, sc stateCase, class string) stateCase {
 		changed = false
 		for b := len(sc.Blocks) - 1; b >= 0; b-- {
 			items := strings.Fields(sc.Blocks[b])
-			for i := len(items) - 1; i >= 0; i-- {
-				d := sc
-				d.Blocks = append([]string{}, sc.Blocks...)
-				d.Blocks[b] = strings.Join(append(append([]string{}, items[:i]...), items[i+1:]...), " ")
-				if c, _, _ := evalState(or, d); c == class {
-					sc, changed = d, true
-					items = strings.Fields(sc.Blocks[b])
+			// delta debugging: drop chunks of items, halving the chunk size down to single items
+			for chunk := (len(items) + 1) / 2; chunk >= 1; chunk /= 2 {
+				for i := len(items) - chunk; i >= 0; i -= chunk {
+					if i+chunk > len(items) {
+						continue
+					}
+					d := sc
+					d.Blocks = append([]string{}, sc.Blocks...)
+					d.Blocks[b] = strings.Join(append(append([]string{}, items[:i]...), items[i+chunk:]...), " ")
+					if c, _, _ := evalState(or, d); c == class {
+						sc, changed = d, true
+						items = strings.Fields(sc.Blocks[b])
+					}
 				}
 			}
 			if b == len(sc.Blocks)-1 && len(sc.Blocks) > 1 && sc.Blocks[b] == "" {
@@ -764,17 +798,32 @@ func main() {
 			reportTrie(tc, v)
 		}
 	}
+	shrunk := map[string]bool{}
 	for i := 0; i < nstate; i++ {
 		sc, specs := genStateCase(r.Fork(uint64(1_000_000 + i)))
 		line := strings.Join(sc.Blocks, " | ")
 		_ = specs
 		class, what, _ := evalState(or, sc)
 		c.Hist[fmt.Sprintf("state_newstate_%v_pre014_%v", sc.NewSt, sc.Pre)]++
+		for _, bl := range sc.Blocks {
+			if strings.Contains(bl, "mig:") {
+				c.Hist["state_blocks_with_casm_migration"]++
+				if !strings.Contains(bl, "dec:") {
+					c.Hist["state_blocks_migration_only"]++
+				}
+			}
+			if strings.Count(bl, "sto:") > 100 {
+				c.Hist["state_blocks_over_100_updates_one_trie"]++
+			}
+		}
 		c.Count(line+fmt.Sprint(sc.NewSt, sc.Reopen, sc.Pre), true)
 		if i < 2 {
 			c.Sample(sc)
 		}
-		if class != "" {
+		if class != "" && shrunk[class] {
+			c.Violation(class, what, map[string]any{"kind": "state", "state_case": sc}, false)
+		} else if class != "" {
+			shrunk[class] = true // one replay per class is kept: shrink only the first occurrence
 			small := shrinkState(or, sc, class)
 			_, what2, det := evalState(or, small)
 			if what2 != "" {
@@ -786,6 +835,6 @@ func main() {
 	c.Hist["trie1_stored_nodes_compared"] = trie1NodesCompared
 	c.Hist["trie1_roots_compared"] = trie1RootsCompared
 	c.Finish("trie op sequences (heights 3/8/64/251, Pedersen+Poseidon, keys sharing long prefixes, ~30% zero writes, legacy trie committed+reopened at random points) " +
-		"checked on trie2, legacy trie and both temp-trie backends against the model's per-op root terms and the spec root; the legacy trie additionally against its own transcription Trie1 (Hash() after a random subset of the Puts: root, root key, the set of stored node keys with child links read from the database, every stored value; Trie1 root TERM == Trie2 root TERM); state diff chains (deploy/replace/nonce/storage incl. zero writes/Sierra declarations/system contracts 0x1,0x2) on both state backends with restarts, " +
+		"checked on trie2, legacy trie and both temp-trie backends against the model's per-op root terms and the spec root; the legacy trie additionally against its own transcription Trie1 (Hash() after a random subset of the Puts: root, root key, the set of stored node keys with child links read from the database, every stored value; Trie1 root TERM == Trie2 root TERM); state diff chains (deploy/replace/nonce/storage incl. zero writes, wipes and >100-slot bulk writes/Sierra declarations/CASM-hash migrations incl. migration-only blocks/system contracts 0x1,0x2) on both state backends with restarts, " +
 		"<0.14.0 and >=0.14.0 formulas; non-trivial = at least 3 trie ops or any state chain; distinct by full case")
 }
